@@ -399,10 +399,78 @@ fn one_run(n_threads: usize, n_ops: usize, seed: u64, st: &mut Stats) -> bool {
     true
 }
 
+/// First use of fresh instances by several threads at once: whatever initialisation an instance
+/// defers to its first call must not let a racing thread draw from a not-yet-seeded generator.
+/// Everything drawn by every trial goes into one set: a repeated value across instances is the event.
+fn first_use_race(trials: usize, seed: u64, st: &mut Stats) {
+    let Some(fx) = fixture() else {
+        st.inconclusive.push("fixture failed".into());
+        return;
+    };
+    let fx = Arc::new(fx);
+    let mut all: HashSet<Vec<u8>> = HashSet::new();
+    let replay = json!({"monitor": "c19", "phase": "first-use-race", "run_seed": seed});
+    #[cfg(feature = "hooks")]
+    hooks::set_perturbation(seed | 1);
+    for trial in 0..trials {
+        let n_threads = [2usize, 3, 4, 8][trial % 4];
+        let cc = Arc::new(cosmian_cover_crypt::api::Covercrypt::default());
+        let barrier = Arc::new(std::sync::Barrier::new(n_threads));
+        let mut hs = vec![];
+        for t in 0..n_threads {
+            let (cc, fx, barrier) = (cc.clone(), fx.clone(), barrier.clone());
+            hs.push(std::thread::spawn(move || -> Vec<(&'static str, Vec<u8>)> {
+                let mut got = vec![];
+                let ap = if t % 2 == 0 { &fx.classic_ap } else { &fx.hybrid_ap };
+                barrier.wait();
+                if t % 4 == 3 {
+                    // a whole new master key as the first call
+                    if let Out::Ok((msk, _)) = call(|| cc.setup()) {
+                        if let Some(Ok(w)) = ser(&msk).ok().map(|b| crate::wire::WMsk::parse(&b)) {
+                            got.push(("master binding scalar", w.s.clone()));
+                        }
+                    }
+                } else if let Out::Ok((s, e)) = call(|| cc.encaps(&fx.mpk, ap)) {
+                    got.push(("encapsulated secret", real::secret_bytes(&s).to_vec()));
+                    if let Some(Ok(w)) = ser(&e).ok().map(|b| crate::wire::WXenc::parse(&b)) {
+                        got.push(("tag", w.tag.clone()));
+                    }
+                }
+                got
+            }));
+        }
+        for h in hs {
+            match h.join() {
+                Ok(got) => {
+                    for (kind, v) in got {
+                        st.bump("first_use_values");
+                        let mut k = kind.as_bytes().to_vec();
+                        k.push(0);
+                        k.extend_from_slice(&v);
+                        if !all.insert(k) {
+                            st.findings.push(Finding {
+                                prop: "C19".into(),
+                                signature: format!("C19:value-repeated-across-fresh-instances:{}", kind.replace(' ', "-")),
+                                detail: format!("trial {trial}: a {kind} drawn by a thread racing for the first use of a fresh instance had already been drawn on another fresh instance"),
+                                replay: replay.clone(),
+                            });
+                        }
+                    }
+                }
+                Err(_) => st.findings.push(Finding { prop: "C19".into(), signature: "C19:worker-thread-panicked".into(), detail: "first-use race: a thread panicked outside a guarded call".into(), replay: replay.clone() }),
+            }
+        }
+        st.bump("first_use_race_trials");
+    }
+    #[cfg(feature = "hooks")]
+    hooks::set_perturbation(0);
+}
+
 pub fn run(tier: &str, seed: u64, budget_s: u64, out: Option<&str>) -> Stats {
     let mut st = Stats::default();
     let mut rng = Rng::new(seed);
     let start = Instant::now();
+    first_use_race(if tier == "thorough" { 2000 } else { 300 }, rng.next(), &mut st);
     let budget = Duration::from_secs(if budget_s > 0 { budget_s } else if tier == "thorough" { 180 } else { 25 });
     let mut configs: BTreeSet<(usize, usize)> = BTreeSet::new();
     while start.elapsed() < budget {
